@@ -16,6 +16,7 @@ func (c *Conversation) akeHasFinished() error {
 	c.keys.wipe()
 	c.keys = c.ake.keys
 	c.keys.oldMACKeys = append(c.keys.oldMACKeys, retiredMACKeys...)
+	c.keys.forgetOldestMACKeysOver(maxMACKeysAwaitingDisclosure)
 	if c.ake.hasSSID {
 		c.ssid = c.ake.ssid
 	}
